@@ -23,6 +23,8 @@ RULE = (
     "indices and repeats until no unlabeled sample is left. Distinct = "
     "case hash. Non-trivial = at least 3 cycles and the last cycle has "
     "fewer candidates than the batch size or exactly one candidate.")
+RULE += (" Further generated dimensions (added while closing seeded "
+         "changes): " + 'per-sample weights on an ordinary or a large scale (x100, x1000); alternative constructor configurations of the registry; n_jobs incl. the default -1' + ".")
 ASSUMPTIONS = [
     "the caller's model object is reused across cycles exactly as in the "
     "README loop (fit_clf=True, so the strategy fits a clone)",
